@@ -87,6 +87,9 @@ func minterLine(m minttypes.Minter) string {
 func runMint(seed uint64, n int, out *Out) {
 	extreme := envInt("VERIF_MINT_EXTREME", 0) == 1
 	for h := 0; h < n; h++ {
+		if skipHist(h) {
+			continue
+		}
 		r := NewRng(seed*1_000_003 + uint64(h))
 		e := NewEnv(r.Range(1_000, 50_000_000), 4)
 		k := e.App.MintKeeper
